@@ -191,3 +191,104 @@ func genDeleg(r *vlib.R) string {
 	}
 	return fmt.Sprintf("deleg nsec q=%s N=%s", q, l)
 }
+
+// nodata nsec q=<name> ds=<t|f> N=<owner>/<letters of q c s n d x>,…
+// the real VerifyNODATANSEC, exact-owner branch (every generated set holds an NSEC owned by the query name):
+// q = the query type is in the bitmap, c CNAME, s SOA, n NS, d DS
+func execNodataNSEC(f []string) vlib.Res {
+	m := kv(f)
+	isDS := m["ds"] == "t"
+	qtype := dns.TypeMX
+	if isDS {
+		qtype = dns.TypeDS
+	}
+	var set []dns.RR
+	type ne struct {
+		owner string
+		bits  string
+	}
+	var ns []ne
+	for _, t := range splitList(m["N"]) {
+		p := strings.Split(t, "/")
+		ns = append(ns, ne{p[0], p[1]})
+		bm := []uint16{dns.TypeRRSIG, dns.TypeNSEC}
+		for _, b := range p[1] {
+			switch b {
+			case 'q':
+				bm = append(bm, qtype)
+			case 'c':
+				bm = append(bm, dns.TypeCNAME)
+			case 's':
+				bm = append(bm, dns.TypeSOA)
+			case 'n':
+				bm = append(bm, dns.TypeNS)
+			case 'd':
+				bm = append(bm, dns.TypeDS)
+			}
+		}
+		set = append(set, &dns.NSEC{Hdr: dns.RR_Header{Name: spelled(tokName(p[0]), len(ns)%2), Rrtype: dns.TypeNSEC, Class: 1, Ttl: 60},
+			NextDomain: "zz." + tokName(p[0]), TypeBitMap: bm})
+	}
+	msg := new(dns.Msg)
+	msg.SetQuestion(spelled(tokName(m["q"]), 1), qtype)
+	msg.Response = true
+	err := dnssec.VerifyNODATANSEC(msg, set)
+	impl := "ok"
+	switch {
+	case err == nil:
+	case errors.Is(err, dnssec.ErrNSECTypeExists):
+		impl = "fail:typeexists"
+	case errors.Is(err, dnssec.ErrNSECBadDelegation):
+		impl = "fail:baddelegation"
+	case errors.Is(err, dnssec.ErrNSECMissingCoverage):
+		impl = "fail:nocover"
+	default:
+		impl = "fail:other"
+	}
+	// oracle: the deciding record is the first one owned by the query name; it denies the type only if the type (and
+	// CNAME) is absent AND the record speaks for that type: the parent's delegation NSEC (NS, no SOA) speaks for DS
+	// only, the child's apex NSEC (SOA) never for DS
+	or := "ok"
+	for _, e := range ns {
+		if !labelsEqual(tokLabels(e.owner), tokLabels(m["q"])) {
+			continue
+		}
+		has := func(c string) bool { return strings.Contains(e.bits, c) }
+		bad := has("q") || has("c") || (isDS && has("s")) || (!isDS && has("n") && !has("s")) || (isDS && has("d"))
+		if err == nil && bad {
+			or = fail("nodata/nsec/denial-accepted-from-a-record-that-cannot-give-it", "q=%s ds=%v bits=%s", m["q"], isDS, e.bits)
+		}
+		if err != nil && !bad {
+			or = fail("nodata/nsec/genuine-denial-refused", "q=%s ds=%v bits=%s", m["q"], isDS, e.bits)
+		}
+		break
+	}
+	return vlib.Res{Impl: impl, Oracle: or, Tags: "nt"}
+}
+
+func genNodataNSEC(r *vlib.R) string {
+	q := vlib.Pick(r, []string{"child.example", "www.zone.test", "zone.test"})
+	n := 1 + r.Intn(2)
+	var parts []string
+	exact := r.Intn(n)
+	for i := 0; i < n; i++ {
+		owner := q
+		if i != exact && r.Bool() {
+			owner = vlib.Pick(r, []string{"example", "a." + q, "other.test"})
+		}
+		bits := ""
+		for _, b := range []string{"q", "c", "s", "n"} {
+			if r.Chance(1, 3) {
+				bits += b
+			}
+		}
+		if r.Chance(1, 3) {
+			bits = vlib.Pick(r, []string{"n", "nd", "ns", "s", "x"}) // delegation point (parent side), secure delegation, apex, plain
+		}
+		if bits == "" {
+			bits = "x"
+		}
+		parts = append(parts, owner+"/"+bits)
+	}
+	return fmt.Sprintf("nodata nsec q=%s ds=%s N=%s", q, tf(r), strings.Join(parts, ","))
+}
